@@ -63,13 +63,14 @@ func (p params) name() string {
 }
 
 type exec struct {
-	p        params
-	log      sx.Log
-	node     *gomavlib.Node
-	conns    []*vnet.FakeConn
-	listener *vnet.FakeListener
-	pconn    *vnet.FakePacketConn
-	custom   *vnet.FakeConn
+	p           params
+	log         sx.Log
+	node        *gomavlib.Node
+	conns       []*vnet.FakeConn
+	listener    *vnet.FakeListener
+	pconn       *vnet.FakePacketConn
+	pconnHanded bool
+	custom      *vnet.FakeConn
 
 	initErr           error
 	baseSteps         int
@@ -173,6 +174,15 @@ func (e *exec) Body() {
 		}
 		vnet.ListenPacketHook = func(network, address string) (net.PacketConn, error) { return e.pconn, nil }
 		n.Endpoints = []gomavlib.EndpointConf{gomavlib.EndpointUDPBroadcast{BroadcastAddress: "192.168.7.255:5600", LocalAddress: "192.168.7.1:5600"}}
+	case "bc-badport":
+		// a broadcast endpoint whose broadcast address has a port that is not a number: whether
+		// Initialize accepts that is the library's business; if it refuses, nothing may stay open
+		e.pconn = &vnet.FakePacketConn{Name: "bc"}
+		vnet.ListenPacketHook = func(network, address string) (net.PacketConn, error) {
+			e.pconnHanded = true
+			return e.pconn, nil
+		}
+		n.Endpoints = []gomavlib.EndpointConf{gomavlib.EndpointUDPBroadcast{BroadcastAddress: "192.168.7.255:mavlink", LocalAddress: "192.168.7.1:5600"}}
 	case "initfail":
 		e.listener = &vnet.FakeListener{Name: "lst"}
 		calls := 0
@@ -197,6 +207,14 @@ func (e *exec) Body() {
 	e.node = n
 	e.initErr = n.Initialize()
 	e.baseSteps = vmc.Steps()
+	if p.Kind == "bc-badport" && e.initErr != nil {
+		vmc.Await("lib threads done", vmc.LibThreadsDone)
+		if e.pconnHanded && !e.pconn.IsClosed() {
+			e.problems = append(e.problems, "Initialize failed ("+e.initErr.Error()+") and left the broadcast socket open")
+		}
+		e.finished = true
+		vmc.Finish()
+	}
 	if p.Kind == "initfail" || p.Kind == "baddialect" {
 		if e.initErr == nil {
 			e.problems = append(e.problems, "Initialize succeeded although an endpoint / the dialect is invalid")
@@ -431,6 +449,7 @@ func variants(thorough bool) []sx.Variant {
 	for _, k := range []string{"custom", "serial", "tcpserver"} {
 		ps = append(ps, params{Kind: k, Consumer: "drain", Writer: "racing", SlowClose: true, Incoming: true})
 	}
+	ps = append(ps, params{Kind: "bc-badport", Consumer: "drain", Writer: "none"})
 	ps = append(ps, params{Kind: "initfail", Consumer: "drain"}, params{Kind: "baddialect", Consumer: "drain"})
 
 	var out []sx.Variant
